@@ -914,6 +914,45 @@ fn respond(line: &str) -> R {
                 .collect::<Result<Vec<_>, String>>()?;
             Ok(join(vec![node("World", "", impls), node("Queries", "", queries)]))
         }
+        // the items of the trait definition and of every block, as validation sees them
+        ["items", src] => {
+            let (trait_, blocks) = parse_blocks(src)?;
+            let mut out = Vec::new();
+            if let Some(trait_) = &trait_ {
+                let items = trait_
+                    .items
+                    .iter()
+                    .map(|item| match item {
+                        syn::TraitItem::Const(x) => Ok(leaf("TI", &format!("const;{};{};{}", x.ident, x.default.is_some(), x.generics.params.len()))),
+                        syn::TraitItem::Type(x) => Ok(leaf("TI", &format!("type;{};{};{}", x.ident, x.default.is_some(), x.generics.params.len()))),
+                        syn::TraitItem::Fn(x) => Ok(leaf("TI", &format!("fn;{};{};0", x.sig.ident, x.default.is_some()))),
+                        _ => Err("trait item kind".to_string()),
+                    })
+                    .collect::<Result<Vec<_>, String>>()?;
+                out.push(node("Trait", &format!("{};{}", trait_.ident, trait_.unsafety.is_some()), items));
+            } else {
+                out.push(leaf("NoTrait", ""));
+            }
+            for block in &blocks {
+                let items = block
+                    .items
+                    .iter()
+                    .map(|item| match item {
+                        syn::ImplItem::Const(x) => Ok(leaf("II", &format!("const;{};{};{}", x.ident, toks(&x.vis), x.generics.params.len()))),
+                        syn::ImplItem::Type(x) => Ok(leaf("II", &format!("type;{};{};{}", x.ident, toks(&x.vis), x.generics.params.len()))),
+                        syn::ImplItem::Fn(x) => Ok(leaf("II", &format!("fn;{};{};0", x.sig.ident, toks(&x.vis)))),
+                        _ => Err("impl item kind".to_string()),
+                    })
+                    .collect::<Result<Vec<_>, String>>()?;
+                let trait_last = block
+                    .trait_
+                    .as_ref()
+                    .map(|(_, path, _)| path.segments.last().unwrap().ident.to_string())
+                    .unwrap_or_else(|| "-".into());
+                out.push(node("VImpl", &format!("{};{}", trait_last, block.unsafety.is_some()), items));
+            }
+            Ok(node("Items", "", out))
+        }
         _ => Err(format!("unknown request: {line}")),
     }
 }
